@@ -483,63 +483,88 @@ def badarg_check():
 
 
 # ------------------------------------------------------------------ generated cases
-def generated_cases(seed, n):
-    """Operand sets taken from seeded histories (values read off the live heap, so they
-    carry the splits earlier operators left) combined with a non-mutating step."""
+def _generated_case(seed, run):
+    """One operand set taken from a seeded history (values read off the live heap, so they
+    carry the splits earlier operators left) combined with a non-mutating step; or None."""
     from .schedule import Scheduler
     from .world import World
 
-    cases = []
-    run = 0
-    while len(cases) < n and run < 4 * n + 20:
-        run += 1
-        sched = Scheduler("C10", f"c11:{seed}", run)
-        world = World(check_t1=False, check_t2=False)
-        try:
-            for _ in range(sched.cfg["nsteps"]):
-                step = sched.next_step(world)
+    sched = Scheduler("C10", f"c11:{seed}", run)
+    world = World(check_t1=False, check_t2=False)
+    try:
+        for _ in range(sched.cfg["nsteps"]):
+            step = sched.next_step(world)
+            if step is None:
+                break
+            if "macro" in step:
+                step = sched.resolve_macro(world, step)
                 if step is None:
-                    break
-                if "macro" in step:
-                    step = sched.resolve_macro(world, step)
-                    if step is None:
-                        continue
-                for key in ("t1", "t2", "repeat"):
-                    if key in step:
-                        step[key] = False
-                step.pop("drop", None)
-                world.execute(step)
-        except Exception:  # noqa: BLE001 - whatever the history hit, we only harvest operands
-            pass
-        if len(world.slots) < 1:
+                    continue
+            for key in ("t1", "t2", "repeat"):
+                if key in step:
+                    step[key] = False
+            step.pop("drop", None)
+            step.pop("fault", None)
+            world.execute(step)
+    except Exception:  # noqa: BLE001 - whatever the history hit, we only harvest operands
+        pass
+    if len(world.slots) < 1:
+        return None
+    r = sched.rng
+    sched.pending = []
+    for _try in range(6):
+        kind = r.choice(["operator", "operator", "bquery", "uquery", "copy"])
+        st = getattr(sched, kind + "_step")(world)
+        sched.pending = []
+        if st is None or st["op"] in ("plot",):
             continue
-        r = sched.rng
-        for _try in range(6):
-            kind = r.choice(["operator", "operator", "bquery", "uquery", "copy"])
-            st = getattr(sched, kind + "_step")(world)
-            if st is None or st["op"] in ("plot",):
-                continue
-            names = [st["a"]] + ([st["b"]] if "b" in st else [])
-            vals = []
-            okv = True
-            for nme in names:
-                v = model.value(world.slots[nme].live)
-                if not isinstance(v, str) and not kernel.sane(v):
-                    okv = False
-                vals.append(v)
-            if not okv:
-                continue
-            if not all(isinstance(v, str) or kernel.is_polygonal(v) for v in vals) and st["op"] in ops.BINARY_OPERATORS + ops.BINARY_QUERIES:
-                if r.random() < 0.7:
-                    continue  # curved binary steps are slow: keep a few
-            st = {k: v for k, v in st.items() if k not in ("t1", "t2", "repeat", "drop", "dst")}
-            st["a"] = 0
-            if "b" in st:
-                st["b"] = 1 if len(names) > 1 and names[1] != names[0] else 0
-            ops_vals = vals if ("b" in st and st["b"] == 1) else vals[:1]
-            cases.append({"name": f"gen-{seed}-{run}:{st['op']}",
-                          "operands": [model.jsonable(v) for v in ops_vals], "presplit": [], "step": st})
-            break
+        names = [st["a"]] + ([st["b"]] if "b" in st else [])
+        vals = []
+        okv = True
+        for nme in names:
+            v = model.value(world.slots[nme].live)
+            if not isinstance(v, str) and not kernel.sane(v):
+                okv = False
+            vals.append(v)
+        if not okv:
+            continue
+        if not all(isinstance(v, str) or kernel.is_polygonal(v) for v in vals) and \
+                st["op"] in ops.BINARY_OPERATORS + ops.BINARY_QUERIES:
+            if r.random() < 0.7:
+                continue  # curved binary steps are slow: keep a few
+        st = {k: v for k, v in st.items() if k not in ("t1", "t2", "repeat", "drop", "dst", "fault")}
+        st["a"] = 0
+        if "b" in st:
+            st["b"] = 1 if len(names) > 1 and names[1] != names[0] else 0
+        ops_vals = vals if ("b" in st and st["b"] == 1) else vals[:1]
+        return {"name": f"gen-{seed}-{run}:{st['op']}",
+                "operands": [model.jsonable(v) for v in ops_vals], "presplit": [], "step": st}
+    return None
+
+
+def _generated_chunk(seed, runs):
+    faulthandler.dump_traceback_later(TASK_WALL, exit=True)
+    try:
+        return [(run, _generated_case(seed, run)) for run in runs]
+    finally:
+        faulthandler.cancel_dump_traceback_later()
+
+
+def generated_cases(seed, n, jobs=1):
+    """n generated cases, from run indices 1.. in order (independent of the worker count)."""
+    runs = list(range(1, 2 * n + 9))
+    found = {}
+    if jobs <= 1:
+        for run in runs:
+            found[run] = _generated_case(seed, run)
+    else:
+        ctx = multiprocessing.get_context("fork")
+        chunks = [runs[i:i + 3] for i in range(0, len(runs), 3)]
+        with ProcessPoolExecutor(max_workers=jobs, mp_context=ctx) as ex:
+            for part in ex.map(_generated_chunk, [seed] * len(chunks), chunks):
+                for run, case in part:
+                    found[run] = case
+    cases = [found[run] for run in runs if found.get(run) is not None]
     return cases[:n]
 
 
@@ -612,7 +637,7 @@ def check(tier, seed, jobs):
     rng = random.Random(f"{seed}:C11")
     cat = catalogue()
     ngen = 24 if tier == "quick" else 160
-    gens = generated_cases(seed, ngen)
+    gens = generated_cases(seed, ngen, jobs)
     cases = cat + gens
     ctx = multiprocessing.get_context("fork")
     harness = []
